@@ -437,7 +437,7 @@ async def start_component(
     root_component_context = _init_component("", {"type": component_class, **config})
     async with AsyncExitStack() as exit_stack:
         tg: TaskGroup | None = None
-        if timeout:
+        if timeout is not None:
             await exit_stack.enter_async_context(coalesce_exceptions())
             tg = await exit_stack.enter_async_context(create_task_group())
             tg.start_soon(
